@@ -270,7 +270,7 @@ def shrink(case, failing) -> list:
 
 
 from tools.translators import gen as _gen  # noqa: F401  (must be imported first: it discovers gen_c09)
-from tools.translators.gen_c09 import OVERRIDE_CONFIGS as OVERRIDES  # the same list T1 turns into Gen_Strop.cfgs_ov
+from tools.translators.gen_c09 import OVERRIDE_CONFIGS as OVERRIDES, AFFIX_OVERRIDES  # the same list T1 turns into Gen_Strop.cfgs_ov
 
 
 def main(chk: core.Check, replay: typing.Optional[str] = None) -> int:
@@ -413,7 +413,7 @@ def main(chk: core.Check, replay: typing.Optional[str] = None) -> int:
     stats['illegal_affix_instances'] = 0
     n_aff = 0
     if not replay:
-        for ov in AFFIX_OVERRIDES:
+        for ak, ov in enumerate(AFFIX_OVERRIDES):
             od = dump_config_overrides(ov)
             if od is None:
                 broken.append('affix override %r: configuration dump failed' % (ov,))
@@ -422,6 +422,11 @@ def main(chk: core.Check, replay: typing.Optional[str] = None) -> int:
             acases = [[ln, ty, w] for ln in LANGS for ty in ['any', 'path', 'macro']
                       for w in ['if', 'foo', '_A', 'int8_t', 'a b', '1x', 'None', 'EFOO', 'x']]
             ai, _ = run_impl(acases, overrides=ov)
+            am = run_model(exe, [['%s@a%d' % (c[0], ak), c[1], c[2]] for c in acases]) if model is not None else None
+            if am is not None:      # the model, run with the override configuration as data, must answer like the implementation
+                for c, g, m in zip(acases, ai, am):
+                    if m[0] != g:
+                        bad_model.append((-1, 'affix override %r: %r model %r' % (ov, c, m[0]), g))
             bad_chars = set(ch for v in ov.values() for ch in v if not (ch.isascii() and (ch.isalnum() or ch == '_')))
             for c, g in zip(acases, ai):
                 n_aff += 1
@@ -527,9 +532,6 @@ def main(chk: core.Check, replay: typing.Optional[str] = None) -> int:
     return chk.finish()
 
 
-AFFIX_OVERRIDES = [{'stropping_suffix': '-'}, {'stropping_suffix': '/'}, {'stropping_suffix': '/../x'}, {'stropping_suffix': '..'},
-                   {'stropping_suffix': ' '}, {'stropping_suffix': ''}, {'stropping_suffix': '\u00e9'}, {'stropping_prefix': '-'},
-                   {'stropping_prefix': '', 'stropping_suffix': ''}, {'stropping_prefix': '_', 'stropping_suffix': '$x'}]
 ISO_CONFIGS = [None, {'stropping_prefix': '_pre_', 'stropping_suffix': '_post_'}, {'reserved_identifiers': ['foo', 'qz_7']},
                {'encoding_prefix': '_u'}]
 ISO_CASES = [['any', 'if'], ['any', 'foo'], ['any', 'qz_7'], ['any', 'a b'], ['any', '1x'], ['any', 'é'], ['macro', 'EFOO'],
